@@ -1,5 +1,5 @@
 (* oracle/thread/driver.ml — glue only.
-   "<id> S <tbc 0|1> <nslots> <act>;<act>;..."  -> runs srun, prints
+   "<id> S <tbc 0|1|2|3> <nslots> <act>;<act>;..."  -> runs srun, prints
        "<id> <ok|error> T:<events> R:<values> G:<coroutines alive>"
    "<id> P <current|old|oldh> <g>:<label>;..." -> runs Proto.first_reject from Proto.init,
        prints "<id> accept" or "<id> reject <index>" *)
@@ -81,7 +81,7 @@ let () =
     match split_on ' ' line with
     | id :: "S" :: tbc :: ns :: rest ->
       let sc = match rest with [] -> [] | s :: _ -> List.filter (fun x -> x <> "") (split_on ';' s) in
-      let o = srun (nat_of_int (int_of_string ns)) (tbc = "1") (List.map parse_act sc) in
+      let o = srun (nat_of_int (int_of_string ns)) (nat_of_int (int_of_string tbc)) (List.map parse_act sc) in
       let s = out_st o in
       let evs = List.rev s.evs in
       let tr = if evs = [] then "-" else String.concat ";" (List.map show_vals evs) in
